@@ -1,12 +1,16 @@
 (* Proof obligations over facts regenerated from /repo on every check (Generated/SourceFacts.v,
-   written by harness/cmd/facts).  Topic: chan_concurrent.  When an edit of the sources changes a fact, the
-   lemma below stops compiling; the checks of the properties that depend on this topic then report
+   written by harness/cmd/facts).  Topic: chan_concurrent.  The facts are semantic summaries (orders, literal
+   sets, capacity classes, parent classes of contexts, lock events per path), so a behaviour-
+   preserving rewrite regenerates the same facts; when an edit changes what the theorems rest on,
+   the lemma below stops compiling, the checks of the properties that depend on this topic report
    the broken obligation by name and search for a failing input. *)
 From Coq Require Import List String ZArith Bool.
 Import ListNotations.
 Require Import Verif.Common.LockEv Verif.Generated.SourceFacts.
+
 Open Scope string_scope.
 
-(* both result channels of the concurrent middleware have one slot per attempt *)
-Lemma concurrent_channels_ok : chans_concurrent = [("results", "remote.ConcurrentCalls"); ("failed", "remote.ConcurrentCalls")].
-Proof. reflexivity. Qed.
+(* both result channels of the concurrent middleware are buffered with one and the same
+   non-literal capacity expression (one slot per attempt) *)
+Lemma concurrent_channels_ok : same_expr_caps 2 chans_concurrent = true.
+Proof. vm_compute; reflexivity. Qed.
